@@ -194,6 +194,58 @@ let run_e2e_file c =
              (if k < 0 then "" else hex_of_bytes (take 24 (List.filteri (fun i _ -> i >= k) m)))
              (if k < 0 then "" else hex_of_bytes (take 24 (List.filteri (fun i _ -> i >= k) bytes))))
 
+(* kind e2e_prefix: the bytes a writer has put on the sink BEFORE finalize (provisional metadata region + the frames of
+   every whole block written) must be the composed model's `stream` after the same writes *)
+let run_e2e_prefix c =
+  let bytes = bytes_of_hex (str_field c "bytes") in
+  let cfg = field c "cfg" in
+  let expect = ints_of (field c "expect") in
+  match read_metadata_min bytes with
+  | None -> "{\"end\":\"badmeta\"}"
+  | Some (si, audio) ->
+    let ch = int_field cfg "ch" 1 and bps = int_field cfg "bps" 16 and rate = int_field cfg "rate" 44100 in
+    let lpc_on = (field cfg "lpc" <> JNull) in
+    let fast = (field cfg "fast" = JBool true) in
+    let eo = { eo_max_po = n_of_int (int_field cfg "po" 5); eo_mid_side = (field cfg "mid_side" = JBool true);
+               eo_exhaustive = not fast; eo_rice2 = bps > 16 } in
+    (* the provisional STREAMINFO has the block size in both fields and the rest as declared: frames parse under it *)
+    let lpcs = ref [] in
+    let rec collect audio =
+      if audio <> [] then
+        match struct_frame (Some si) audio with
+        | Ok (fa, rest) ->
+          let a = fa.f_hdr.h_assign in
+          List.iteri (fun i sf ->
+              match sf.sf_body with
+              | BLpc (order, _, prec, shift, coefs, _) ->
+                let eb = int_of_n (subframe_bps a (n_of_int bps) (nat_of_int i)) - int_of_n sf.sf_wasted in
+                lpcs := ((eb, sem_body fa.f_hdr.h_bs sf.sf_body), (((order, prec), shift), coefs)) :: !lpcs
+              | _ -> ()) fa.f_subs;
+          if List.length rest < List.length audio then collect rest
+        | _ -> () in
+    collect audio;
+    let table = !lpcs in
+    let l = if lpc_on then Some (fun eb ys -> List.assoc_opt (int_of_n eb, ys) table) else None in
+    let complete_oracle = (not lpc_on) || ch <> 2 || fast in
+    let total = if field cfg "declare_total" = JBool true then Some (n_of_int (List.length expect)) else None in
+    (match build_options cfg with
+     | (Err _ | Panic _) as r -> Printf.sprintf "{\"end\":\"options:%s\"}" (res_tag r)
+     | Ok o ->
+       match sample_new Release [] o (n_of_int rate) (n_of_int bps) (n_of_int ch) total with
+       | (Err _ | Panic _) as r -> Printf.sprintf "{\"end\":\"new:%s\"}" (res_tag r)
+       | Ok w ->
+         match sample_write (encB_x eo l (n_of_int rate) (n_of_int bps)) Release w (List.map z_of_int expect) with
+         | (Err _ | Panic _) as r -> Printf.sprintf "{\"end\":\"write:%s\",\"complete_oracle\":%b}" (res_tag r) complete_oracle
+         | Ok w' ->
+           let m = stream w'.sw_enc in
+           let same = (m = bytes) in
+           let rec first i a b = match a, b with
+             | x :: a', y :: b' -> if x = y then first (i + 1) a' b' else i
+             | [], [] -> -1 | _ -> i in
+           let k = if same then -1 else first 0 m bytes in
+           Printf.sprintf "{\"end\":\"ok\",\"match\":%b,\"complete_oracle\":%b,\"model_len\":%d,\"file_len\":%d,\"meta_len\":%d,\"first_diff\":%d}"
+             same complete_oracle (List.length m) (List.length bytes) (List.length bytes - List.length audio) k)
+
 let () =
   try
     while true do
@@ -204,6 +256,7 @@ let () =
             let c = parse_json line in
             (match str_field c "kind" with
              | "e2e_file" | "enc_stream" -> run_e2e_file c
+             | "e2e_prefix" -> run_e2e_prefix c
              | k -> Printf.sprintf "{\"end\":\"unknown-kind:%s\"}" k)
           with
           | Stack_overflow -> "{\"end\":\"driver-stack-overflow\"}"
